@@ -44,13 +44,20 @@ pub fn unhex(s: &str) -> Vec<u8> {
     v
 }
 
-pub fn ints<T: std::str::FromStr>(s: &str) -> Vec<T> {
+/// comma-separated integers; `v*N` stands for `N` copies of `v`
+pub fn ints<T: std::str::FromStr + Clone>(s: &str) -> Vec<T> {
     if s.is_empty() || s == "-" {
         return vec![];
     }
-    s.split(',')
-        .map(|x| x.parse::<T>().unwrap_or_else(|_| panic!("harness: bad int {:?}", x)))
-        .collect()
+    let one = |x: &str| x.parse::<T>().unwrap_or_else(|_| panic!("harness: bad int {:?}", x));
+    let mut out = Vec::new();
+    for x in s.split(',') {
+        match x.split_once('*') {
+            Some((v, n)) => out.extend(std::iter::repeat(one(v)).take(n.parse::<usize>().unwrap_or_else(|_| panic!("harness: bad count {:?}", x)))),
+            None => out.push(one(x)),
+        }
+    }
+    out
 }
 
 pub fn join<T: std::fmt::Display>(v: impl IntoIterator<Item = T>) -> String {
